@@ -10,6 +10,30 @@ REPO = "/repo"
 
 
 FIRST_MISSED = {
+    "C06c": "C06-X6 initiator/loaned_assets threading (the CompleteLoan/NextLoan built by next_loan carry the handled NextLoan's initiator)",
+    "C11c": "C11-K6 position lists are edited in place (update closures return the list they were given)",
+    "C18c": "C18-vault-burn now requires the factory-asset/burn-share test to guard every path from new fees to CONFIG.save (was: operand only)",
+    "C19d": "C19-R8 cursor successor byte (one constant byte <= 0x20 appended to the returned cursor, exclusive bound)",
+    "C16c": "C16 NextLoan guard is now the conjunction sender==source_vault AND factory.Vault(asset)==source_vault (looked-up value only); C06-X6 caught it at first sight",
+    "C16d": "C16-owner-init (CONFIG.owner := InstantiateMsg.owner when the message struct has that field, else info.sender; field list emitted by the driver)",
+    "C10c": "C10-Q6 (pool/vault side of collection: reset iff transfer) -- C07-F3 caught it at first sight, now filed under C10 too",
+    "C07c": "C07-F5 ledger initialisation (one zero entry per pool asset, in pool order, for each of the three ledgers)",
+    "C08d": "C08-B2 bonded_assets pairing now requires the helper's list to be exactly [declared asset] (was: tainted by it)",
+    "C01c": "C01-V1 raw-balance-only-feeds-the-fee-subtraction (needed kill-aware parameter origins)",
+    "C01d": "C01-V4 withdraw hook authorised by the LP token (C16-hook caught it at first sight, now filed under C01/C04/C05 too)",
+    "C04c": "C04-A4 interpolation operator tree (product before division) via expr_shape/norm_shape",
+    "C05c": "C05-V6 loan-counter protocol (C06-X4 caught it at first sight, now filed under C05 too)",
+    "C05d": "C05-V4 direct-withdraw: funds[0].denom compared with the stored LP denom, amount = funds[0].amount (also for pair and 3pool)",
+    "C02c": "C02-T3 swap wiring (C01-V1 / C14-S1 caught it at first sight, now filed under C02 too)",
+    "C02d": "C02-T3 funds validated before pricing in swap (C01-V3 caught it at first sight, now filed under C02 too)",
+    "C03c": "C03-Y4 mint helper: compute_d(pool_i + deposit_i) same index, mint = supply*(d1-d0)/d0 (needed constant-index array selection in provenance)",
+    "C03d": "C03-Y5 compute_d symmetric in its two reserves (node/consumer signatures invariant under exchanging the parameters)",
+    "C13d": "C13-W7 claim / rewards query / share query replay an INCLUSIVE range ending at the current epoch",
+    "C12c": "C12-L7 the stored new claimed total is the quantity the dominating `> funded` test rejects (C13-W5 caught it at first sight)",
+    "C15d": "C15-M3 slippage clauses: both constant-product orientations and the stableswap clause reject STRICTLY beyond the bound (needed index-preserving projections)",
+    "C20c": "C20-E7 distributor epoch_config validated on every storing path (C18-store caught it at first sight, now filed under C20 too)",
+    "C20d": "C20-E8 Epoch{id} query derives a past start from the stored clock: current.start - duration*(current.id - id)",
+    "C09d": "C09-D6 forwarded epochs filtered by `available`, and a reward needs an entry found in epoch.available",
     "C14a": "C14-S1/C01-V1 fee-looked-up-for-the-reduced-asset (the pending fee must be looked up by the id of the asset whose balance it reduces)",
     "C12a": "C12-L3 now requires a latest-entry accessor of asset_history (last_key_value / next_back), not any dependence on asset_history",
     "C17b": "C17-P4 (each flag stored by update_config comes from the same-named request field) was planned in DESIGN but not built",
